@@ -940,7 +940,9 @@ static bool p_unquoted_key(Work &W, Env &E, Plan &P) {
     for (auto &e : tv->entries) if (g::nfc_key(e.first) == g::nfc_key(key)) return false;
     Value v; std::string vs = simple_value_text(E, v, false, true);
     tv->entries.push_back({key, v});
-    insert_toks(P.toks, at, {raw(u8(key) + ":" + vs)});
+    // the value attached to the colon, or separated from it by white space / a line break (the colon then ends the unquoted token)
+    if (*g::chance(60)) insert_toks(P.toks, at, {raw(u8(key) + ":" + vs)});
+    else { insert_toks(P.toks, at, {raw(u8(key) + ":"), raw(vs)}); P.pos.push_back("value-separated"); }
     P.first = {CIF_UNQUOTED_KEY}; P.lo_tok = at; P.hi_tok = at + 1;
     return true;
 }
